@@ -28,7 +28,8 @@ def demo(src, extra='', b='_b'):
     if not os.path.exists(os.path.join(wt, '_b/demo')) and '__LIBARCHIVE_BUILD' not in extra:
         return demo(src, extra + ' -D__LIBARCHIVE_BUILD -DHAVE_CONFIG_H', b)
     if not os.path.exists(os.path.join(wt, '_b/demo')): return None, out
-    rc, out = sh('./_b/demo', cwd=wt, timeout=300)
+    envp = f'BIN={wt}/_b/bin ' + (f'DEMO_SH={os.path.dirname(src)}/demo.sh ' if os.path.exists(os.path.join(os.path.dirname(src), 'demo.sh')) else '')
+    rc, out = sh(envp + './_b/demo', cwd=wt, timeout=900)
     os.unlink(os.path.join(wt, '_b/demo'))
     return rc, out[-1500:]
 base_tests, _ = build_and_test('base')
@@ -57,7 +58,7 @@ for n in nums:
     if ok:
         dst = os.path.join(root, 'seeded', f'{prop}-{n}')
         os.makedirs(dst, exist_ok=True)
-        for f in ('patch.diff', 'demo.c', 'notes.md'):
+        for f in ('patch.diff', 'demo.c', 'demo.sh', 'notes.md'):
             if os.path.exists(f'{src}/{f}'): shutil.copy(f'{src}/{f}', dst)
         meta = {'property': prop, 'breaks': open(f'{src}/notes.md').read()[:1500] if os.path.exists(f'{src}/notes.md') else '',
                 'confirmed': {'demo on unchanged tree': 'exit 0', 'demo with patch': f'exit {d1[0]}', 'demo build': how_demo,
